@@ -88,6 +88,8 @@ def effect_default(sem):
             continue
         if k == 'font-face' and not r[1]:
             continue
+        if k == 'other' and r[1] == 1008:
+            continue      # an @variables rule: resolved, not written, under the default preferences
         out.append(r)
     return tuple(out)
 
@@ -116,12 +118,37 @@ def roundtrip(ctx, sheet, case, what):
     return b1
 
 
+def roundtrip_unresolved(ctx, sheet, case):
+    """the same with @variables rules written out (resolveVariables off): every rule of the DOM is read back, in
+    order, and the text is a fixpoint"""
+    import cssutils
+    try:
+        cssutils.ser.prefs.resolveVariables = False
+        b1 = sheet.cssText
+        r1 = [(r.type, r.cssText) for r in sheet.cssRules if r.cssText]
+        sh2 = parse(b1)
+        cssutils.ser.prefs.resolveVariables = False      # (parse() starts from the default preferences)
+        b2 = sh2.cssText
+        r2 = [(r.type, r.cssText) for r in sh2.cssRules if r.cssText]
+    except Exception as e:
+        ctx.violation('raises-edited', case, 'resolveVariables=False: %s: %s' % (type(e).__name__, e), KNOWN_PRED)
+        return
+    finally:
+        cssutils.ser.prefs.useDefaults()
+    if [t for t, _ in r1] != [t for t, _ in r2]:
+        ctx.violation('lossy-edited', dict(case, serialised=b1.decode('utf-8', 'replace')[:1500], prefs={'resolveVariables': False}),
+                      'rule types in the DOM %r, read back %r' % ([t for t, _ in r1], [t for t, _ in r2]), KNOWN_PRED)
+    elif b1 != b2:
+        ctx.violation('not-fixpoint-edited', dict(case, serialised=b1.decode('utf-8', 'replace')[:1500], prefs={'resolveVariables': False}),
+                      'second serialisation differs: %r' % b2[:1500], KNOWN_PRED)
+
+
 def edit(rng, sheet):
     """a few accepted DOM edits"""
     import cssutils
     ops = []
     for _ in range(rng.randrange(1, 5)):
-        k = rng.randrange(5)
+        k = rng.randrange(6)
         rules = list(sheet.cssRules)
         styles = [r for r in rules if r.type == r.STYLE_RULE]
         try:
@@ -146,6 +173,11 @@ def edit(rng, sheet):
                 r = rng.choice(styles)
                 r.selectorText = rng.choice(['a, b > c', 'div#x.y:hover', '*[a="b c"]::before'])
                 ops.append('selectorText')
+            elif k == 5:
+                t = rng.choice(['@variables { ev: 1px }', '@namespace eq "http://e";', '@import "e.css" print;', '@charset "utf-8";',
+                                '@page :left { margin: 1cm }', '@font-face { font-family: e }', '/*e*/', '@media tv { e { left: 0 } }'])
+                sheet.add(t)
+                ops.append('add ' + t.split(' ')[0])
         except Exception as e:
             if not isinstance(e, __import__('xml.dom').dom.DOMException):
                 raise
@@ -317,6 +349,7 @@ def run(ctx):
             continue
         ctx.case((text, tuple(ops)))
         roundtrip(ctx, dom, dict(case, edits=ops), 'edited')
+        roundtrip_unresolved(ctx, dom, dict(case, edits=ops))
         if i == 3:
             ctx.sample({'text': text[:500], 'edits': ops})
     for fam, text, content in content_cases(rng, 150 if quick else 3000):
